@@ -1,6 +1,8 @@
 package harness
 
 import (
+	"fmt"
+	"strings"
 	"encoding/json"
 	"os"
 	"strconv"
@@ -84,6 +86,9 @@ func TestDevPlan(t *testing.T) {
 	msgs := map[string]string{}
 	n := 0
 	for i := 0; i < len(plan); i += stride {
+		if os.Getenv("SKIPILL") != "" && fmt.Sprint(plan[i].Params["illegal"]) == os.Getenv("SKIPILL") {
+			continue
+		}
 		v := Execute(t, plan[i])
 		n++
 		if v.Class != "" {
@@ -114,5 +119,35 @@ func TestDevSpec(t *testing.T) {
 	t.Logf("class=%s sig=%s\nmsg=%s\nout=%v steps=%d dec=%d sim=%dms", v.Class, v.Sig, v.Msg, v.Output, v.Steps, v.Decisions, v.SimNs/1e6)
 	for _, l := range v.LogTail {
 		t.Log(l)
+	}
+}
+
+func TestDevCorpus(t *testing.T) {
+	if os.Getenv("CORPUS") == "" {
+		t.Skip()
+	}
+	loadCorpus()
+	for _, p := range c14Corpus {
+		for b := 0; b < 2; b++ {
+			base := c14Baseline(t, p, b)
+			t.Logf("%-40s b=%d steps=%-8d skip=%q outcome=%s msg=%q diags=%d syntax=%q compile=%q outlen=%d", p.name, b, base.steps, base.skip, base.po.Outcome, clip(base.po.Msg), strings.Count(base.po.Diags, "\n"), clip(base.po.Syntax), clip(base.po.Compile), len(base.po.Out))
+		}
+	}
+}
+
+func TestDevDiags(t *testing.T) {
+	name := os.Getenv("DIAGS")
+	if name == "" {
+		t.Skip()
+	}
+	loadCorpus()
+	for _, p := range c14Corpus {
+		if p.name == name {
+			a := Analyze(p.prog, NewProvider(p.prog.Modules))
+			t.Logf("syntax=%v panic=%q", a.Syntax, a.PanicMsg)
+			for _, d := range a.Diags {
+				t.Log(d)
+			}
+		}
 	}
 }
